@@ -72,7 +72,18 @@ META["C06"] = {
     "technique": "explicit-state BFS over operation sequences with reference comparison + preemption-bounded schedule enumeration, on the implementation",
 }
 
-ENGINE_OF = {"C06": "seq+sched", "C09": "sched", "C08": "seq", "C02": "seq+sched", "C04": "seq+sched", "C01": "seq+sched"}
+META["C03"] = {
+    "level": "model_checking",
+    "rule": "per breaker configuration (3 strategies x thresholds {0,0.5,1} / {1,2,1.5} x minimum amount {0,2,3} x retry timeout {5,10} x window (10 ms/1 bucket, 20/2, 20/3->1) x probe number {0,1,2}; four two-breaker lists) a BFS over all histories of start / done(slot, ok|err) / clock advances {1,4,retry-1,retry,bucket,interval,interval+1} (<=3 requests in flight, slow = virtual duration > 3 ms) to the depth bound through the real api.Entry; after EVERY operation the decision and TriggeredRule, the listener callbacks of that operation and every breaker's private state are compared with a three-state reference machine; distinct outcome = configuration + operation + answer + callbacks",
+    "assumptions": [A_CLOCK, A_OVERLAY, "single goroutine (concurrency is C12)", "while half-open with a probe number > 0 every request is admitted as a probe (the code's documented ProbeNum semantics)", "completions recorded while open cannot influence a later decision (statistics are cleared on close), so the reference records them too"],
+    "budget_quick": 90,
+    "budget_thorough": 1500,
+    "text": "Explicit-state exploration of time-stamped request histories through the real entry path against a reference state machine, with listener log and private breaker state compared on every transition.",
+    "level_note": "Bounded depth (7 quick / 10 thorough; 6 / 8 with two breakers), finite configuration grid, <=3 requests in flight.",
+    "technique": "explicit-state BFS over operation sequences on the implementation with reference state machine comparison",
+}
+
+ENGINE_OF = {"C03": "seq", "C06": "seq+sched", "C09": "sched", "C08": "seq", "C02": "seq+sched", "C04": "seq+sched", "C01": "seq+sched"}
 
 # properties not claimed, with the reason (kept current)
 NOT_APPLICABLE = {}
